@@ -30,9 +30,9 @@ LEVELS = {
             "A cipher configured twice is measured twice and can break symmetry (witness; the property quantifies over sets). Names are modelled in ASCII (Rust's to_uppercase is Unicode-aware)."),
     "C07": ("Proof. rotation_sync for the symbolic two-party rotation system under every loss / duplication / reordering / timing (invariant Ahead), ids_interlock, receive_before_send, "
             "lockstep_fresh; session layer refines it: op_refines, session_rotation_sync, fresh_payload_opens, rotation_period, lost_message_only_delays.",
-            "ECDH commutativity (L2) is built into the symbolic keys; a key holder's malformed rotation message is outside the property (observation in DESIGN.md)."),
-    "C08": ("Proof. Every Rust panic site on the receive path is an explicit outcome of the model: never_panics for all reachable states and all datagrams (hypothesis NonEmptySeals for key-holder "
-            "seals), node_reject_pure, unknown_sender_ignored, sequence_no_state_reach (any sequence of rejected datagrams: no panic, no output, state equal up to the counter).",
+            "ECDH commutativity (L2) is built into the symbolic keys; a key holder's malformed rotation message is outside the property (derive_key panic site modelled: keyholder_can_panic, honest_sessions_never_panic)."),
+    "C08": ("Proof. Every Rust panic site on the receive path is an explicit outcome of the model: never_panics for all reachable states and all datagrams (hypotheses NonEmptySeals and ValidRotKeys on what key HOLDERS seal; "
+            "outsider_cannot_panic_node / panic_needs_session_seal: without a session key neither site is reachable; own_rotation_seals_valid: nodes running this code never seal such a message), node_reject_pure, unknown_sender_ignored, sequence_no_state_reach (any sequence of rejected datagrams: no panic, no output, state equal up to the counter).",
             "Panics inside ring / std are outside the model; hangs are observed by the stall watchdog of the correspondence run, not provable (Lean functions terminate by construction)."),
     "C09": ("Proof. other_source_keeps_session (no hypothesis on the bytes), rejected_keeps_session, forged_data_keeps_peer, replayed_handshake_keeps_session (the repaired F-C09 for all byte strings), "
             "pending_handles_handshake, pending_expiry_keeps_peer (for every pending list), dispatch_reaches_session.",
